@@ -284,7 +284,7 @@ func topNodeRead(v ssa.Value, d int) bool {
 		if x.Op != token.MUL {
 			return false
 		}
-		if fa, ok := x.X.(*ssa.FieldAddr); ok && ir.FieldName(fa.X.Type(), fa.Field) == "node" {
+		if fa, ok := x.X.(*ssa.FieldAddr); ok && ir.FieldName(fa.X.Type(), fa.Field) == nodeFieldName {
 			// &path[i].node, or &copy.node where copy = path[i]
 			switch b := fa.X.(type) {
 			case *ssa.IndexAddr:
@@ -310,7 +310,7 @@ func topNodeRead(v ssa.Value, d int) bool {
 		}
 	case *ssa.Field:
 		// (path[i]).node on a loaded entry value
-		if ir.FieldName(x.X.Type(), x.Field) == "node" {
+		if ir.FieldName(x.X.Type(), x.Field) == nodeFieldName {
 			if ld, ok := x.X.(*ssa.UnOp); ok && ld.Op == token.MUL {
 				if ia, ok := ld.X.(*ssa.IndexAddr); ok {
 					if l2, ok := ia.X.(*ssa.UnOp); ok && l2.Op == token.MUL && isCursorPath(l2.X) {
@@ -410,7 +410,7 @@ func runCURSORPUSH(c *Ctx) {
 					for _, r2 := range *ia.Referrers() {
 						switch y := r2.(type) {
 						case *ssa.FieldAddr:
-							if ir.FieldName(y.X.Type(), y.Field) == "node" && y.Referrers() != nil {
+							if ir.FieldName(y.X.Type(), y.Field) == nodeFieldName && y.Referrers() != nil {
 								for _, r3 := range *y.Referrers() {
 									if st, ok := r3.(*ssa.Store); ok && st.Addr == ssa.Value(y) {
 										pushed = append(pushed, st.Val)
@@ -424,7 +424,7 @@ func runCURSORPUSH(c *Ctx) {
 								if ld, ok := y.Val.(*ssa.UnOp); ok && ld.Op == token.MUL {
 									if lit, ok := ld.X.(*ssa.Alloc); ok && lit.Referrers() != nil {
 										for _, r3 := range *lit.Referrers() {
-											if fa, ok := r3.(*ssa.FieldAddr); ok && ir.FieldName(fa.X.Type(), fa.Field) == "node" && fa.Referrers() != nil {
+											if fa, ok := r3.(*ssa.FieldAddr); ok && ir.FieldName(fa.X.Type(), fa.Field) == nodeFieldName && fa.Referrers() != nil {
 												for _, r4 := range *fa.Referrers() {
 													if st, ok := r4.(*ssa.Store); ok && st.Addr == ssa.Value(fa) {
 														pushed = append(pushed, st.Val)
@@ -503,7 +503,7 @@ func liPlusK(v ssa.Value) (li *ssa.UnOp, k int64, ok bool) {
 		return nil, 0, false
 	}
 	fa, isFA := ld.X.(*ssa.FieldAddr)
-	if !isFA || ir.FieldName(fa.X.Type(), fa.Field) != "linkIndex" {
+	if !isFA || ir.FieldName(fa.X.Type(), fa.Field) != posFieldName {
 		return nil, 0, false
 	}
 	return ld, 0, true
@@ -566,7 +566,7 @@ func runPATHINDEX(c *Ctx) {
 					// the test may sit in the caller of an extracted helper
 					if ok, _ := viaCallers(c, fn, ia, func(i ssa.Instruction) bool {
 						st, ok := i.(*ssa.Store)
-						return ok && strings.HasSuffix(ir.Sym(st.Addr), ".linkIndex")
+						return ok && strings.HasSuffix(ir.Sym(st.Addr), "."+posFieldName)
 					}, func(rw func(string) string, at ssa.Instruction) bool {
 						u, l := pathIdxFacts(rw(liSym), rw(nodeSym), need, k, at, nil)
 						return (upperOK || u) && (lowerOK || l)
@@ -703,7 +703,7 @@ func runENTRYINV(c *Ctx) {
 					if !ok {
 						ok, _ = viaCallers(c, at.Parent(), at, func(i ssa.Instruction) bool {
 							st, isSt := i.(*ssa.Store)
-							return isSt && strings.HasSuffix(ir.Sym(st.Addr), ".linkIndex")
+							return isSt && strings.HasSuffix(ir.Sym(st.Addr), "."+posFieldName)
 						}, func(rw func(string) string, site ssa.Instruction) bool {
 							return advanceOK(rw(liSym), tot, site)
 						})
@@ -731,7 +731,7 @@ func runENTRYINV(c *Ctx) {
 					continue
 				}
 				fa, ok := st.Addr.(*ssa.FieldAddr)
-				if !ok || ir.FieldName(fa.X.Type(), fa.Field) != "linkIndex" {
+				if !ok || ir.FieldName(fa.X.Type(), fa.Field) != posFieldName {
 					continue
 				}
 				n++
@@ -760,7 +760,7 @@ func pathIdxFacts(liSym, nodeSym string, need, k int64, at ssa.Instruction, deps
 			return false
 		}
 		as := ir.Sym(st.Addr)
-		return strings.HasSuffix(as, ".linkIndex") || (deps != nil && ir.MayClobber(as, deps))
+		return strings.HasSuffix(as, "."+posFieldName) || (deps != nil && ir.MayClobber(as, deps))
 	}
 	upperOK = need >= 0
 	if !upperOK {
@@ -904,7 +904,7 @@ func advanceOK(liSym string, tot int64, at ssa.Instruction) bool {
 		return false
 	}, func(i ssa.Instruction) bool {
 		st, ok := i.(*ssa.Store)
-		return ok && strings.HasSuffix(ir.Sym(st.Addr), ".linkIndex")
+		return ok && strings.HasSuffix(ir.Sym(st.Addr), "."+posFieldName)
 	})
 }
 
@@ -915,8 +915,8 @@ func init() {
 		ID:    "STEPOVER",
 		Props: []string{"C10"},
 		Min:   2,
-		Doc: "between two neighbouring keys of a node lies the subtree under the link between them: a cursor step that moves a path entry's position by one without descending (position ± 1 stored, no child pushed from that slot) is taken only where exactly the link it steps over was found nil or absent — Link[position+1] for a step forward, Link[position] for a step back — or where that very link is being followed (the descent). Undo stores on an error edge are exempt.",
-		Run: runSTEPOVER,
+		Doc:   "between two neighbouring keys of a node lies the subtree under the link between them: a cursor step that moves a path entry's position by one without descending (position ± 1 stored, no child pushed from that slot) is taken only where exactly the link it steps over was found nil or absent — Link[position+1] for a step forward, Link[position] for a step back — or where that very link is being followed (the descent). Undo stores on an error edge are exempt.",
+		Run:   runSTEPOVER,
 	})
 }
 
@@ -937,7 +937,7 @@ func runSTEPOVER(c *Ctx) {
 					continue
 				}
 				fa, ok := st.Addr.(*ssa.FieldAddr)
-				if !ok || ir.FieldName(fa.X.Type(), fa.Field) != "linkIndex" {
+				if !ok || ir.FieldName(fa.X.Type(), fa.Field) != posFieldName {
 					continue
 				}
 				bin, ok := st.Val.(*ssa.BinOp)
@@ -1013,7 +1013,7 @@ func runSTEPOVER(c *Ctx) {
 						return false
 					}
 					s2, ok := i.(*ssa.Store)
-					return ok && s2 != st && (strings.HasSuffix(ir.Sym(s2.Addr), ".linkIndex") || ir.MayClobber(ir.Sym(s2.Addr), liDeps))
+					return ok && s2 != st && (strings.HasSuffix(ir.Sym(s2.Addr), "."+posFieldName) || ir.MayClobber(ir.Sym(s2.Addr), liDeps))
 				}
 				var edgeTo *ssa.BasicBlock
 				slotNilAt := func(use ssa.Instruction, lsym string) bool {
@@ -1073,7 +1073,7 @@ func runSTEPOVER(c *Ctx) {
 							pred := phi.Block().Preds[i]
 							last := pred.Instrs[len(pred.Instrs)-1]
 							edgeTo = phi.Block()
-							if !slotNilAt(last, "*"+ir.Sym(e)+".linkIndex") {
+							if !slotNilAt(last, "*"+ir.Sym(e)+"."+posFieldName) {
 								all = false
 							}
 							edgeTo = nil
